@@ -765,9 +765,9 @@ impl PartialOrd for PlutusList {
 }
 
 impl Hash for PlutusList {
+    // must agree with PartialEq (which ignores the encoding flag): equal lists hash equally
     fn hash<H: Hasher>(&self, state: &mut H) {
         self.elems.hash(state);
-        self.definite_encoding.hash(state);
     }
 }
 
